@@ -27,6 +27,7 @@ SCHEMA_NAMES = [
 ]
 HOSTILE_SCHEMA_NAMES = ["pet_owner", "HTTPResponse", "foo-bar", "Foo.Bar", "Self", "date", "Enum", "Field"]
 RESERVED_SCHEMA_NAMES = ["List", "Any", "Model", "Optional", "Union", "Dict", "data", "type", "UUID"]  # shadow typing imports / reserved-name suffixing
+SUFFIXED_SCHEMA_NAMES = ["Id", "Type", "Email", "Json", "Copy"]  # class name gets a reserved-name suffix (Id_), nothing is shadowed
 PROP_NAMES = ["id", "name", "value", "count", "tags", "createdAt", "created_at", "created_at_2", "updated", "userId", "user_id", "kind", "status",
               "parent", "children", "next", "owner", "label", "price", "active", "notes", "ref", "size", "code"]
 HOSTILE_PROP_NAMES = ["user-id", "class", "from", "type", "data", "items", "self", "1st", "Ünï",
@@ -309,7 +310,12 @@ def _finish_discriminators(schemas: dict, g: "Gate | None" = None) -> None:
         if not ok:
             node.pop("discriminator", None)
             continue
-        if g is not None and any(not re.fullmatch(r"[A-Z][A-Za-z0-9]*", v) or v in RESERVED_SCHEMA_NAMES for v in variants):
+        if g is not None and "reserved_schema_name" in g.exclude and any(v in SUFFIXED_SCHEMA_NAMES for v in variants):
+            # a discriminated union over a variant whose class name gets a reserved-name suffix (Email -> Email_): C01-F08
+            g.excluded["reserved_schema_name"] += 1
+            node.pop("discriminator", None)
+            continue
+        if g is not None and any(not re.fullmatch(r"[A-Z][A-Za-z0-9]*", v) or v in RESERVED_SCHEMA_NAMES or v in SUFFIXED_SCHEMA_NAMES for v in variants):
             if "hostile_schema_in_mapping" in g.exclude:
                 g.excluded["hostile_schema_in_mapping"] += 1
                 node.pop("discriminator", None)
@@ -645,7 +651,8 @@ def _operation(draw, g: Gate, names: list[str], path: str, path_vars: list[str],
         op["operationId"] = draw(st.sampled_from(["2fast", "3DModel", "1st_item"])) + str(op_index)
     # tags
     tag_kind = g.pick(draw, [(None, "one"), (None, "one"), (None, "none"), ("multi_tag", "multi"), ("hostile_tag", "hostile"),
-                             ("tag_variant", "variant"), ("client_attr_tag", "client_attr")], fallback="one", weights=[3, 3, 3, 2, 2, 2, 1])
+                             ("tag_variant", "variant"), ("client_attr_tag", "client_attr"), ("tag_variant", "multi_variant")],
+                      fallback="one", weights=[3, 3, 3, 2, 2, 2, 1, 1])
     if tag_kind == "one":
         op["tags"] = [draw(st.sampled_from(TAGS))]
     elif tag_kind == "multi":
@@ -656,6 +663,11 @@ def _operation(draw, g: Gate, names: list[str], path: str, path_vars: list[str],
         op["tags"] = [draw(st.sampled_from(VARIANT_TAGS))]
     elif tag_kind == "client_attr":
         op["tags"] = [draw(st.sampled_from(CLIENT_ATTR_TAGS))]
+    elif tag_kind == "multi_variant":
+        # ONE operation listing several spellings of one tag (still one tag group)
+        cluster = draw(st.sampled_from([["pets", "Pets", "PETS"], ["data-sources", "data_sources", "DataSources", "datasources"], ["Store", "store"],
+                                        ["AuditLogs", "auditlogs", "audit_logs", "audit-logs"], ["users", "USERS", "Users"]]))
+        op["tags"] = draw(st.permutations(cluster))[:draw(st.integers(2, len(cluster)))]
     if g.flag(draw, "summary", 1, 3):
         op["summary"] = draw(st.sampled_from(["Do the thing", "List things.", "Fetch one"]))
     if g.flag(draw, "op_description", 1, 5):
@@ -670,6 +682,19 @@ def _operation(draw, g: Gate, names: list[str], path: str, path_vars: list[str],
         params.append({"name": v, "in": "path", "required": True, "schema": _param_schema(draw, g, names, "path")})
     n_extra = draw(st.integers(0, 4))
     seen = {(p["in"], p["name"]) for p in params} | set(path_level_names) | {("path", v) for v in path_vars}
+    for (pl_loc, pl_name) in sorted(path_level_names):
+        if pl_loc == "path":
+            continue
+        if g.flag(draw, "path_level_param_overridden", 1, 4):
+            # the operation re-declares the path-level parameter (same name and location): the operation's declaration wins
+            params.append({"name": pl_name, "in": pl_loc, "required": draw(st.booleans()), "schema": {"type": draw(st.sampled_from(["string", "integer"]))}})
+        elif "param_same_name_two_locations" not in g.exclude and g.flag(draw, "path_level_param_same_name_other_location", 1, 3):
+            # the operation declares a DIFFERENT parameter with the same name in another location: both must stay
+            other = "header" if pl_loc == "query" else "query"
+            if (other, pl_name) not in seen:
+                g.used["param_same_name_two_locations"] += 1
+                params.append({"name": pl_name, "in": other, "required": draw(st.booleans()), "schema": {"type": "string"}})
+                seen.add((other, pl_name))
     for _ in range(n_extra):
         loc = g.pick(draw, [(None, "query"), (None, "query"), (None, "query"), ("header_param", "header"), ("cookie_param", "cookie")], fallback="query")
         pname = g.pick(draw, [(None, n) for n in PARAM_NAMES] + [("hostile_param_name", n) for n in HOSTILE_PARAM_NAMES]
@@ -748,11 +773,11 @@ def specs(draw, gate: Gate | None = None, max_schemas: int = 5, max_ops: int = 4
     g = gate if gate is not None else Gate()
     n_s = draw(st.integers(0 if g.flag(draw, "no_schemas", 1, 12) else 1, max_schemas))
     pool = ([(None, n) for n in SCHEMA_NAMES] + [("hostile_schema_name", n) for n in HOSTILE_SCHEMA_NAMES]
-            + [("reserved_schema_name", n) for n in RESERVED_SCHEMA_NAMES])
+            + [("reserved_schema_name", n) for n in RESERVED_SCHEMA_NAMES] + [("suffixed_schema_name", n) for n in SUFFIXED_SCHEMA_NAMES])
     names: list[str] = []
     for _ in range(n_s):
         n = g.pick(draw, pool, fallback=draw(st.sampled_from(SCHEMA_NAMES)),
-                   weights=[3] * len(SCHEMA_NAMES) + [1] * len(HOSTILE_SCHEMA_NAMES) + [1] * len(RESERVED_SCHEMA_NAMES))
+                   weights=[3] * len(SCHEMA_NAMES) + [1] * len(HOSTILE_SCHEMA_NAMES) + [1] * len(RESERVED_SCHEMA_NAMES) + [1] * len(SUFFIXED_SCHEMA_NAMES))
         if n in names:
             continue
         if any(_cls(n).lower() == _cls(m).lower() for m in names):
@@ -760,6 +785,11 @@ def specs(draw, gate: Gate | None = None, max_schemas: int = 5, max_ops: int = 4
             if not g.flag(draw, "colliding_schema_names", 1, 1):
                 continue
         names.append(n)
+    if len(names) >= 2 and "colliding_schema_names" not in g.exclude and g.flag(draw, "case_variant_schema_pair", 1, 8):
+        # two schemas whose (distinct) class names differ only in letter case: ties under case-insensitive ordering
+        pair = draw(st.sampled_from([("DataSet", "Dataset"), ("UserName", "Username"), ("IPhone", "Iphone")]))
+        if not any(_cls(p_).lower() == _cls(m).lower() for p_ in pair for m in names[:-2]):
+            names[-2:] = list(draw(st.permutations(pair)))
     schemas: dict[str, Any] = {}
     for i, n in enumerate(names):
         schemas[n] = _top_schema(draw, g, n, names, i)
@@ -791,7 +821,8 @@ def specs(draw, gate: Gate | None = None, max_schemas: int = 5, max_ops: int = 4
         if not item and pvars and g.flag(draw, "path_level_params", 1, 4):
             item["parameters"] = [{"name": v, "in": "path", "required": True, "schema": {"type": "string"}} for v in pvars]
             if g.flag(draw, "path_level_query_param", 1, 3):
-                item["parameters"].append({"name": "trace", "in": "query", "required": False, "schema": {"type": "string"}})
+                item["parameters"].append({"name": draw(st.sampled_from(["trace", "limit", "version", "X-Request-Id"])),
+                                           "in": draw(st.sampled_from(["query", "query", "header"])), "required": False, "schema": {"type": "string"}})
             path_level = {(p["in"], p["name"]) for p in item["parameters"]}
         item[method] = _operation(draw, g, names, path, pvars, method, oi, path_level, schemas)
     all_ops = [(p, m, item[m]) for p, item in paths.items() for m in item if m in METHODS]
@@ -880,10 +911,12 @@ def configs(draw, gate: Gate | None = None) -> dict:
     depth = g.pick(draw, [(None, 1), (None, 1), ("pkg_depth_2", 2), ("pkg_depth_3", 3)], fallback=1)
     out = ".".join(["cli"] + [f"sub{j}" for j in range(1, depth)])
     core_kind = g.pick(draw, [(None, "embedded"), (None, "embedded"), ("shared_core_1", 1), ("shared_core_2", 2), ("shared_core_3", 3),
-                              ("shared_core_toplevel_core", "core")], fallback="embedded")
+                              ("shared_core_toplevel_core", "core"), ("shared_core_prefixed_sibling", "prefixed")], fallback="embedded")
     core = None
     if core_kind == "core":
         core = "core"
+    elif core_kind == "prefixed":
+        core = out + "_core"  # sibling whose directory name starts with the client package's
     elif core_kind != "embedded":
         core = ".".join(["shared", "rt", "corepkg"][3 - core_kind:]) if core_kind > 1 else "sharedcore"
     naming = g.pick(draw, [(None, "operationId"), (None, "operationId"), ("naming_clean", "clean"), ("naming_path", "path")], fallback="operationId")
